@@ -170,4 +170,43 @@ theorem C10_code_accept_consistent (expf : Rat → Rat) (c : Crit) (tol thr : Ra
   C10_code_accept expf c tol thr new old nom w w' w'' (sumOk_of_consistent new hkn hnn hbn)
     (sumOk_of_consistent old hko hno hbo) hO
 
+
+/-! The remaining laws, for the code: each is the model's law read through `C10_code_accept`. -/
+
+/-- code: tolerance variants with a singleton old cluster accept iff the base criterion holds -/
+theorem C10_code_singleton (expf : Rat → Rat) (c : Crit) (tol t : Rat) (new old nom : Summary) (w w' w'' : W)
+    (hc : c = .tolDiameter ∨ c = .tolRadius) (hn : SumOk new) (ho : SumOk old) (h1 : old.n = 1) (h2 : 2 ≤ new.n) :
+    codeAccept expf c.name tol t new old nom w w' w'' = PV.bool true ↔ ∃ v, stat c new = some v ∧ t ≤ v := by
+  rw [C10_code_accept expf c tol t new old nom w w' w'' hn ho (by omega)]
+  have := C10_singleton ⟨c, tol⟩ (tabOf expf) t new old nom hc h1 h2
+  constructor
+  · intro h; exact this.mp (by simpa using h)
+  · intro h; rw [this.mpr h]
+
+/-- code: otherwise the merged statistic must also be no lower than the old cluster's minus the slack -/
+theorem C10_code_tol_iff (expf : Rat → Rat) (c : Crit) (tol t : Rat) (new old nom : Summary) (w w' w'' : W)
+    (hc : c = .tolDiameter ∨ c = .tolRadius) (hn : SumOk new) (ho : SumOk old) (h1 : 2 ≤ old.n) (h2 : 2 ≤ new.n) :
+    codeAccept expf c.name tol t new old nom w w' w'' = PV.bool true ↔
+      ∃ v o, stat c new = some v ∧ stat c old = some o ∧ t ≤ v ∧ fsub o (slack (tabOf expf) tol old.n) ≤ v := by
+  rw [C10_code_accept expf c tol t new old nom w w' w'' hn ho (by omega)]
+  have := C10_tol_iff ⟨c, tol⟩ (tabOf expf) t new old nom hc h1 h2
+  constructor
+  · intro h; exact this.mp (by simpa using h)
+  · intro h; rw [this.mpr h]
+
+/-- code: a larger tolerance accepts at least as much -/
+theorem C10_code_mono_tol (expf : Rat → Rat) (c : Crit) (t : Rat) (new old nom : Summary) (w w' w'' : W)
+    (hc : c = .tolDiameter ∨ c = .tolRadius) (hn : SumOk new) (ho : SumOk old) (hO : 1 ≤ old.n)
+    {tol tol' : Rat} (h0 : 0 ≤ tol) (h : tol ≤ tol')
+    (ha : codeAccept expf c.name tol t new old nom w w' w'' = PV.bool true) :
+    codeAccept expf c.name tol' t new old nom w w' w'' = PV.bool true := by
+  rw [C10_code_accept expf c _ t new old nom w w' w'' hn ho hO] at ha ⊢
+  have ha' : accept ⟨c, tol⟩ (tabOf expf) t new old nom = true := by simpa using ha
+  rw [C10_mono_tol (tabOf expf) t new old nom c hc h0 h ha']
+
+/-- code: the slack of the translated criteria is non-negative and non-decreasing in the tolerance -/
+theorem C10_code_slack (expf : Rat → Rat) (n : Nat) {tol tol' : Rat} (h0 : 0 ≤ tol) (h : tol ≤ tol') :
+    0 ≤ slack (tabOf expf) tol n ∧ slack (tabOf expf) tol n ≤ slack (tabOf expf) tol' n :=
+  ⟨C10_slack_nonneg _ _ _, C10_slack_mono _ _ h0 h⟩
+
 end BB
